@@ -223,6 +223,27 @@ func typeDecls(c *spec.Case, pkgKey string) string {
 		id := t.ID
 		switch t.Kind {
 		case spec.KStruct:
+			if t.NoHash {
+				fmt.Fprintf(&sb, "type %s struct {\n", t.Name)
+				for _, f := range t.Fields {
+					fmt.Fprintf(&sb, "\t%s %s\n", f.Name, c.Expr(f.Type, pkgKey))
+				}
+				sb.WriteString("}\n\n")
+				fmt.Fprintf(&sb, "func %s(h uint32) %s {\n\treturn %s{", exp(mk(id)), t.Name, t.Name)
+				for fi, f := range t.Fields {
+					if fi > 0 {
+						sb.WriteString(", ")
+					}
+					fmt.Fprintf(&sb, "%s: %s(vrt.Mix(h, %d))", f.Name, helperRef(c, f.Type, pkgKey, "mk"), fi+1)
+				}
+				sb.WriteString("}\n}\n\n")
+				fmt.Fprintf(&sb, "func %s(x %s) uint32 {\n\treturn vrt.Mix(777", exp(vh(id)), t.Name)
+				for _, f := range t.Fields {
+					fmt.Fprintf(&sb, ", %s(x.%s)", helperRef(c, f.Type, pkgKey, "vh"), f.Name)
+				}
+				sb.WriteString(")\n}\n\n")
+				continue
+			}
 			fmt.Fprintf(&sb, "type %s struct {\n\th uint32\n", t.Name)
 			for _, f := range t.Fields {
 				if f.Emb {
